@@ -270,7 +270,8 @@ def phrases_through_variables(rep, per_form):
 
 # the last name has letters whose upper-case form is shorter in UTF-8 (dotless i): whatever follows it on the line - a month name, a zone -
 # must still be found at the right place
-NAMES = [["zorp"], ["zorp", "blip"], ["quux"], ["frob"], ["frob", "glorp"], ["snarf"], ["sıkı", "ılık"]]
+# and a three-word name whose words are names themselves (longest match; what follows a replaced multi-word name must still be looked at)
+NAMES = [["zorp"], ["zorp", "blip"], ["quux"], ["frob"], ["frob", "glorp"], ["snarf"], ["sıkı", "ılık"], ["snarf", "quux", "zorp"]]
 if any(w in render.all_config_words() for n in NAMES for w in n):
     raise ToolError("a variable name of C03 collides with a configured word")
 
@@ -330,8 +331,15 @@ def rand_line(rng, i, bound_num, bound_any, kinds=None):
         return {"form": "use", "toks": [W(rng.choice(bound_any))]}
     if x < 0.78 and bound_num:
         return {"form": "use", "toks": [{"k": "op", "c": "-"}, W(rng.choice(bound_num))]}
-    if x < 0.88 and len(bound_num) >= 1:
+    if x < 0.84 and len(bound_num) >= 1:
         return {"form": "use", "toks": [W(rng.choice(bound_num)), {"k": "op", "c": rng.choice("+-")}, W(rng.choice(bound_num))]}
+    if x < 0.88 and len(bound_num) >= 1:
+        # names written side by side (one run of words: the longest bound name wins at every position; values side by side are added),
+        # also behind an operator
+        run = W(rng.choice(bound_num) + rng.choice(bound_num) + (rng.choice(bound_num) if rng.random() < 0.3 else []))
+        if rng.random() < 0.5:
+            return {"form": "use", "toks": [run]}
+        return {"form": "use", "toks": [W(rng.choice(bound_num)), {"k": "op", "c": rng.choice("+-*")}, run]}
     if x < 0.94:
         return {"form": "fail", "name": []}
     return {"form": "assign", "name": rng.choice(NAMES), "rhs": {"form": "fail", "name": []}}
